@@ -79,6 +79,30 @@ struct State {
 }
 static mut ST: State = State { on: false, tid: 0, in_child: false, buf: std::ptr::null_mut(), faults: [None; 8], counters: [[0; NK]; 2], fake_exec: true };
 pub static mut ALLOC_WINDOW: bool = false;
+/// "another thread forks here": after the parent's PIPE_HOOK_AT-th `pipe()` of a traced launch the hook is run
+/// with tracing suspended (what it forks inherits exactly what a concurrent spawn would inherit at this point)
+pub static mut PIPE_HOOK_AT: usize = 0;
+pub static mut PIPE_HOOK: Option<fn()> = None;
+static mut PIPE_SEEN: usize = 0;
+static mut IN_HOOK: bool = false;
+
+unsafe fn maybe_pipe_hook() {
+    if ST.in_child || IN_HOOK || PIPE_HOOK_AT == 0 {
+        return;
+    }
+    PIPE_SEEN += 1;
+    if PIPE_SEEN == PIPE_HOOK_AT {
+        if let Some(h) = PIPE_HOOK {
+            IN_HOOK = true;
+            let was = ST.on;
+            ST.on = false;
+            h();
+            ST.on = was;
+            IN_HOOK = false;
+        }
+    }
+}
+
 /// log a line before a waitpid blocks (pipe engine: what the parent holds while it waits)
 pub static mut VERBOSE_WAIT: bool = false;
 
@@ -210,6 +234,7 @@ pub fn start(faults: &[Fault], fake_exec: bool) {
             ST.faults[i] = Some(*f);
         }
         ST.counters = [[0; NK]; 2];
+        PIPE_SEEN = 0;
         ST.tid = gettid();
         ST.in_child = false;
         ST.fake_exec = fake_exec;
@@ -268,6 +293,7 @@ pub unsafe extern "C" fn pipe(fds: *mut c_int) -> c_int {
     let r = libc::syscall(libc::SYS_pipe2, fds, 0) as c_int;
     if r == 0 {
         log(format_args!("pipe -> {} {}", *fds, *fds.add(1)));
+        maybe_pipe_hook();
     } else {
         log(format_args!("pipe -> E{}", errno()));
     }
